@@ -251,6 +251,7 @@ def check_specialize(rep, name, m, r, ty, stats):
                     dom.setdefault(nm, {OTHER}).add(v[1])     # already in generated (camel) spelling
                 else:
                     dom.setdefault(nm, {OTHER}).add(v)
+    needs_len = any(x1 != x2 and cs1 == cs2 for (x1, _d1, cs1, _s1) in cases for (x2, _d2, cs2, _s2) in cases)
     keys = sorted(dom)
     total = 1
     for k in keys:
@@ -277,7 +278,9 @@ def check_specialize(rep, name, m, r, ty, stats):
             # reference: compare values through the camel normalisation
             cases_n = [(x, d, {k: (camel(v) if isinstance(v, str) else v) for k, v in cs.items()}, sz) for (x, d, cs, sz) in cases]
             assign_n = {k: (camel(v) if isinstance(v, str) and v != OTHER else v) for k, v in ref_assign.items()}
-            strong, weak = ref_expected(cases_n, assign_n, L, "<len>" in names)
+            # whether the payload length is a discriminant is the reference's decision, not the generated code's:
+            # it is one exactly when two different children carry the same constraint set
+            strong, weak = ref_expected(cases_n, assign_n, L, needs_len)
             if got in (None, "None"):
                 got_x = None
             else:
